@@ -7,6 +7,8 @@
              operand slots used, header declaration)
   D3 R-ORDER accumulators are zeroed before the first emulateN call; x2/x4 only
              scale n in orc_executor_emulate
+  D4 R-WIDEN 64-bit parameter operands: orc_executor_emulate (and helpers) combine the two executor slots as
+             zero-extended low | high << 32
 Value semantics (saturation, rounding, byte order ...) are NOT decided.
 """
 import re
@@ -152,9 +154,20 @@ def run(ctx):
     rep.check(src, "D3-PREFIX", where(ee), "emulateN-from-opcode", "emulateN is taken from the instruction's own opcode",
               "orc_executor_emulate no longer takes emulateN from insn->opcode")
 
+    # ---- D4: 64-bit parameter operands reach the emulator intact ----------------------------------
+    # (orc_executor_emulate and its helpers reassemble an 8-byte parameter from two int slots; the low half must be
+    #  zero-extended before the shifted high half is OR-ed in -- same type-level rule as C04-D3 / C07-D3b)
+    from widen import check_or_halves
+    n4 = 0
+    for f in db.tu("orcexecutor").main_functions():
+        n4 += check_or_halves(f, rep, "D4-PARAM-HALVES", where(f))
+    if n4 < 1:
+        raise AnalysisBroken("no `lo | hi << 32` assembly found in orcexecutor.c")
+
 
 def emus_dispatch_source(ee):
     for n in ee.walk():
         if n.k == "BinaryOperator" and n.op == "=" and unparse(n.c[0]).endswith(".emulateN"):
             return unparse(n.c[1]) in ("opcode->emulateN", "insn->opcode->emulateN")
     return False
+
